@@ -43,6 +43,10 @@ SquashFails(before, after) ==
 IndNodes(ts, i) == {u \in NodesOf(ts) : ts.ind[u + 1] = i}
 IndTimeDefined(ts) == \A i \in 0..(ts.nind - 1) : Cardinality({TimeOf(ts, u) : u \in IndNodes(ts, i)}) <= 1
 IndPopDefined(ts) == \A i \in 0..(ts.nind - 1) : Cardinality({ts.pop[u + 1] : u \in IndNodes(ts, i)}) <= 1
+\* the oldest root of any marginal tree (roots: parentless nodes with a sample below; isolated samples are roots)
+MaxRootTime(ts) == Max(UNION {{TimeOf(ts, r) : r \in RootsIn(ts, ParentAt(ts, x), 1)} : x \in Cells(ts)})
+MinTime(ts) == Min({TimeOf(ts, u) : u \in NodesOf(ts)})
+MaxTime(ts) == Max({TimeOf(ts, u) : u \in NodesOf(ts)})
 SamplesFiltered(ts, pop, hasTime, t) ==
   SetToSortSeq({u \in SamplesOf(ts) : (pop = -2 \/ ts.pop[u + 1] = pop) /\ (~hasTime \/ TimeOf(ts, u) = t)}, <)
 =============================================================================
